@@ -46,7 +46,11 @@ def run(chk, prog):
              'continue delivers the same message again.')
     R_E = 'C13.unhandled-warning-readable'
     chk.rule(R_E, 'On the path where no error handler is set (Story::on_error is None) nothing empties '
-             'current_warnings: a warning that was not delivered stays readable through get_current_warnings().')
+             'current_warnings: a warning that was not delivered stays readable through get_current_warnings(). Every '
+             'place of continue_internal that empties the list is reached only on the handler-is-set side of the test '
+             '(a place reached with the test undecided - before it, or after the join - empties the list for both sides: a '
+             'warning raised outside a continue, such as the version warning of the constructor, would be dropped before '
+             'any handler saw it).')
     R_B = 'C13.error-stops-story'
     chk.rule(R_B, 'Story::add_error with is_warning = false passes through StoryState::force_end on every path; '
              'StoryState::can_continue depends on has_error.')
@@ -153,7 +157,9 @@ def run(chk, prog):
     tested = any(gfh.atom_for_cond(gfh.cond_at(b)) == 'handler' for b in range(len(ci.blocks)))
     if chk.anchor(R_E, 'test of Story::on_error in continue_internal', tested):
         bad = [b for b in clearing['StoryState::current_warnings']
-               if any(v.get('handler') is False for v in gfh.valuations_at(b, ['handler']))]
+               if any(v.get('handler') is not True for v in gfh.valuations_at(b, ['handler']))]
+        # (a place that empties the list before the handler test, or after the branches have joined again, runs
+        # whether or not a handler is set: it counts as reachable without one)
         chk.decide(R_E, chk.key(R_E, 'continue_internal', 'StoryState::current_warnings'), not bad,
                    'no path without a handler empties current_warnings',
                    'on the path where no error handler is set, current_warnings is emptied at %s: an undelivered '
